@@ -223,7 +223,9 @@ func (s *Server) Run() {
 		if c.Name == "AUTHENTICATE" && len(strings.Fields(first)) == 3 && strings.HasSuffix(strings.ToUpper(first), " LOGIN") {
 			// two-step mechanism: two challenges, each answered by one client line
 			ok := true
-			for _, ch := range []string{"VXNlcm5hbWU6", "UGFzc3dvcmQ6"} {
+			// (go-sasl's LOGIN client sends the user name as initial response: an empty challenge asks
+			// for it, then "Password:")
+			for _, ch := range []string{"", "UGFzc3dvcmQ6"} {
 				s.Events = append(s.Events, "continue "+c.Tag)
 				s.send("+ " + ch + "\r\n")
 				if _, ok = s.readLine(); !ok {
